@@ -60,7 +60,8 @@ Inductive op :=
 | Tick
 (* process *)
 | Crash
-| Construct (svc1 svc2 : option cidr) (outs : list upd_outcome)   (* list nodes+ClusterCIDRs now, build the allocator *)
+| Construct (svc1 svc2 : option cidr) (outs : list upd_outcome) (dp : list (cidr * Z))
+    (* list nodes+ClusterCIDRs now, build the allocator; dp: the --cluster-cidr flags with their mask sizes *)
 | StartInformers.                                                  (* fill the caches from the API state now; handlers fire *)
 
 (* what one step shows *)
@@ -170,12 +171,25 @@ Definition apply_update_cc (w : world) (o' : ccobj) (out : upd_outcome) : world 
       end
   end.
 
+(* the Create of the default ClusterCIDR: the object appears in the API (with the finalizer the controller put on it)
+   unless an object of that name exists *)
+Definition apply_create_cc (w : world) (o' : ccobj) (out : upd_outcome) : world :=
+  match out with
+  | UFail => w
+  | UOk | UAppliedErr =>
+      match find_cc (o_name o') (w_ccs w) with
+      | Some _ => w
+      | None => let rv := w_rv w + 1 in let stored := with_rv o' rv in
+                set_api w (w_nodes w) (w_ccs w ++ [stored]) rv (w_nfeed w) (push_cev w (CAdd stored))
+      end
+  end.
+
 Fixpoint apply_effects (w : world) (fx : list effect) : world :=
   match fx with
   | [] => w
   | FxPatch n cs o :: fx' => apply_effects (apply_patch w n cs o) fx'
   | FxUpdateCC o' out :: fx' => apply_effects (apply_update_cc w o' out) fx'
-  | FxCreateCC _ _ :: fx' => apply_effects w fx'      (* only the default ClusterCIDR is created; not exercised *)
+  | FxCreateCC o' out :: fx' => apply_effects (apply_create_cc w o' out) fx'
   | FxEvent _ _ :: fx' => apply_effects w fx'
   | FxGetNode _ _ :: fx' => apply_effects w fx'
   end.
@@ -416,11 +430,11 @@ Section Step.
         end
     | Tick => (set_queues w (q_tick (w_nq w)) (q_tick (w_cq w)), no_obs)
     | Crash => (crashed w, no_obs)
-    | Construct s1 s2 outs =>
+    | Construct s1 s2 outs dp =>
         match w_ctl w with
         | Some _ => (w, no_obs)
         | None =>
-            let '(m, fx, pan) := construct po lab (w_ccs w) outs s1 s2 (map node_view (w_nodes w)) in
+            let '(m, fx, pan) := construct po lab (with_default dp (w_ccs w)) outs s1 s2 (map node_view (w_nodes w)) in
             let w0 := mkWorld (w_nodes w) (w_ccs w) (w_rv w) [] [] [] [] empty_q empty_q
                               (if pan then None else Some m) false [] [] (s1, s2) (w_delseen w) in
             (apply_effects w0 fx, mkObs (if pan then 3 else 1) fx false)
